@@ -144,7 +144,7 @@ func (x *seqInst) Do(c Call) []any {
 			x.l = newList(x.kind, append([]int(nil), c.Vs...)...)
 		}
 	case "FromJSON":
-		return []any{l.(jsonable).FromJSON(mustJSON(ints(c.Vs))) == nil}
+		return []any{l.(jsonable).FromJSON(loadText(c, mustJSON(ints(c.Vs)))) == nil}
 	default:
 		die("seq: unknown op %s", c.Op)
 	}
@@ -247,7 +247,8 @@ func (u *seqUniverse) Calls(x Inst) []Call {
 	if u.zeros {
 		return append(cs, Call{Op: "IndexOf", V: 3}, Call{Op: "Contains", Vs: []int{3}}, Call{Op: "Contains", Vs: []int{3, 99}}, Call{Op: "IndexOf", V: 0})
 	}
-	cs = append(cs, Call{Op: "FromJSON", Vs: []int{}}, Call{Op: "FromJSON", Vs: []int{2, 0}}, Call{Op: "FromJSON", Vs: []int{1, 1, 0}})
+	cs = append(cs, Call{Op: "FromJSON", Vs: []int{}}, Call{Op: "FromJSON", Vs: []int{2, 0}}, Call{Op: "FromJSON", Vs: []int{1, 1, 0}},
+		Call{Op: "FromJSON", Vs: []int{2, 1}, S: "bad"})
 	for _, v := range u.vals {
 		cs = append(cs, Call{Op: "IndexOf", V: v}, Call{Op: "Contains", Vs: []int{v}}, Call{Op: "Contains", Vs: []int{v, 99}})
 		for _, w := range u.vals {
@@ -480,7 +481,7 @@ func (x *queInst) Do(c Call) []any {
 	case "String":
 		return []any{firstLine(q.String())}
 	case "FromJSON":
-		return []any{q.(jsonable).FromJSON(mustJSON(ints(c.Vs))) == nil}
+		return []any{q.(jsonable).FromJSON(loadText(c, mustJSON(ints(c.Vs)))) == nil}
 	default:
 		die("que: unknown op %s", c.Op)
 	}
@@ -515,7 +516,8 @@ func (u *queUniverse) Calls(x Inst) []Call {
 		cs = append(cs, Call{Op: "Full"})
 	}
 	// loads: empty, shorter than, exactly and longer than the capacity
-	cs = append(cs, Call{Op: "FromJSON", Vs: []int{}}, Call{Op: "FromJSON", Vs: []int{2, 0}}, Call{Op: "FromJSON", Vs: []int{1, 2, 0}})
+	cs = append(cs, Call{Op: "FromJSON", Vs: []int{}}, Call{Op: "FromJSON", Vs: []int{2, 0}}, Call{Op: "FromJSON", Vs: []int{1, 2, 0}},
+		Call{Op: "FromJSON", Vs: []int{2, 1}, S: "bad"})
 	if u.kind == "circularbuffer" {
 		full := make([]int, u.cap)
 		for i := range full {
